@@ -71,7 +71,7 @@ void b64decode(const void * b64, size_t len, TabChar& data)
   const unsigned char *p = (const unsigned char*) b64;
   size_t j = 0,
       pad1 = len % 4 || p[len - 1] == '=',
-      pad2 = pad1 && (len % 4 > 2 || p[len - 2] != '=');
+      pad2 = pad1 && (len % 4 > 2 || (len >= 2 && p[len - 2] != '='));
   const size_t last = (len - pad1) / 4 << 2;
   size_t datalen = last / 4 * 3 + pad1 + pad2;
   data.assign(datalen, '\0');
@@ -85,11 +85,15 @@ void b64decode(const void * b64, size_t len, TabChar& data)
   }
   if (pad1)
   {
-    int n = B64index[p[last]] << 18 | B64index[p[last + 1]] << 12;
+    /* a truncated last group must not be read beyond the input */
+    int n = B64index[p[last]] << 18;
+    if (last + 1 < len)
+      n |= B64index[p[last + 1]] << 12;
     data[j++] = n >> 16 & 0xFF;
     if (pad2)
     {
-      n |= B64index[p[last + 2]] << 6;
+      if (last + 2 < len)
+        n |= B64index[p[last + 2]] << 6;
       data[j++] = n >> 8 & 0xFF;
     }
   }
